@@ -6,6 +6,7 @@ package interp
 
 import (
 	"fmt"
+	"math/big"
 	"go/token"
 	"go/types"
 	"sort"
@@ -125,6 +126,9 @@ func toTerm(v value) *smt.Term {
 
 // fromTerm wraps a term of kind k, normalising constants to Go values.
 func fromTerm(t *smt.Term, k types.BasicKind) value {
+	if isIntTerm(t) {
+		return fromIntTerm(t, k)
+	}
 	if t.IsConst() {
 		return constOfKind(t.V, k)
 	}
@@ -193,8 +197,9 @@ type Violation struct {
 }
 
 type Pending struct {
-	Prefix string            `json:"prefix"`
-	Model  map[string]uint64 `json:"model,omitempty"`
+	Prefix   string            `json:"prefix"`
+	Model    map[string]uint64 `json:"model,omitempty"`
+	IntModel map[string]string `json:"int_model,omitempty"`
 }
 
 type Observation struct {
@@ -247,6 +252,53 @@ type PathCtx struct {
 	intInputs    map[string]bool
 	obsRaw       []rawObs
 	oneShots     int
+	divs         []divEnt
+	Overflows    int
+}
+
+type divEnt struct {
+	a    *smt.Term
+	c    uint64
+	q, r *smt.Term
+}
+
+// udivConst returns quotient and remainder of a / c (unsigned, c constant > 1) as
+// auxiliary variables constrained by a = q*c + r, r < c, q <= max/c.
+func (c *PathCtx) udivConst(a *smt.Term, cst uint64) (*smt.Term, *smt.Term) {
+	for _, d := range c.divs {
+		if d.c == cst && smt.Equal(d.a, a) {
+			return d.q, d.r
+		}
+	}
+	w := a.W
+	if cst&(cst-1) == 0 { // power of two
+		sh := 0
+		for (uint64(1) << uint(sh)) != cst {
+			sh++
+		}
+		q := smt.LShr(a, smt.Const(w, uint64(sh)))
+		r := smt.BAnd(a, smt.Const(w, cst-1))
+		return q, r
+	}
+	k := len(c.divs)
+	qn, rn := fmt.Sprintf("udiv#%d", k), fmt.Sprintf("urem#%d", k)
+	q, r := smt.Var(qn, w), smt.Var(rn, w)
+	maxv := ^uint64(0)
+	if w < 64 {
+		maxv = (uint64(1) << uint(w)) - 1
+	}
+	cons := smt.And(
+		smt.Eq(a, smt.Add(smt.Mul(q, smt.Const(w, cst)), r)),
+		smt.And(smt.ULt(r, smt.Const(w, cst)), smt.ULe(q, smt.Const(w, maxv/cst))))
+	c.divs = append(c.divs, divEnt{a, cst, q, r})
+	// keep the cached model valid by extending it with the determined values
+	if c.eval != nil {
+		av := c.eval.Eval(a)
+		c.model.BV[qn] = av / cst
+		c.model.BV[rn] = av % cst
+	}
+	c.assume(cons)
+	return q, r
 }
 
 type goTask struct {
@@ -257,7 +309,7 @@ type goTask struct {
 
 var cur *PathCtx
 
-func newPathCtx(s *smt.Solver, prefix string, model map[string]uint64) *PathCtx {
+func newPathCtx(s *smt.Solver, prefix string, model map[string]uint64, intModel map[string]string) *PathCtx {
 	c := &PathCtx{
 		Solver:       s,
 		prefix:       prefix,
@@ -275,6 +327,11 @@ func newPathCtx(s *smt.Solver, prefix string, model map[string]uint64) *PathCtx 
 		m := smt.NewModel()
 		for k, v := range model {
 			m.BV[k] = v
+		}
+		for k, v := range intModel {
+			if n, ok := new(big.Int).SetString(v, 10); ok {
+				m.Ints[k] = n
+			}
 		}
 		c.model = m
 		c.eval = smt.NewEvaluator(m)
@@ -441,6 +498,21 @@ func modelMap(m *smt.Model) map[string]uint64 {
 	return r
 }
 
+func intModelMap(m *smt.Model) map[string]string {
+	if m == nil || len(m.Ints) == 0 {
+		return nil
+	}
+	r := make(map[string]string, len(m.Ints))
+	for k, v := range m.Ints {
+		r[k] = v.String()
+	}
+	return r
+}
+
+func pendingOf(prefix string, m *smt.Model) Pending {
+	return Pending{Prefix: prefix, Model: modelMap(m), IntModel: intModelMap(m)}
+}
+
 // branch decides a symbolic boolean: follows the decision prefix, otherwise
 // asks the solver which sides are feasible, queues the other side and
 // continues with one.  The returned side is added to the path condition.
@@ -474,10 +546,7 @@ func (c *PathCtx) branch(t *smt.Term) bool {
 			}
 			r, m := c.check(other)
 			if r == smt.Sat {
-				c.Pending = append(c.Pending, Pending{
-					Prefix: string(c.decisions) + bit(!mv),
-					Model:  modelMap(m),
-				})
+				c.Pending = append(c.Pending, pendingOf(string(c.decisions)+bit(!mv), m))
 			}
 			d = mv
 		} else {
@@ -486,10 +555,7 @@ func (c *PathCtx) branch(t *smt.Term) bool {
 				c.setModel(m)
 				r2, m2 := c.check(nt)
 				if r2 == smt.Sat {
-					c.Pending = append(c.Pending, Pending{
-						Prefix: string(c.decisions) + "0",
-						Model:  modelMap(m2),
-					})
+					c.Pending = append(c.Pending, pendingOf(string(c.decisions)+"0", m2))
 				}
 				d = true
 			} else {
@@ -529,6 +595,14 @@ func (c *PathCtx) ensureModel() {
 func (c *PathCtx) inputsFromModel(m *smt.Model) map[string]uint64 {
 	res := map[string]uint64{}
 	for _, in := range c.inputs {
+		if isIntTerm(in.t) {
+			if v := m.Ints[in.name]; v != nil {
+				res[in.name] = uint64OfInt(v, in.k)
+			} else {
+				res[in.name] = 0
+			}
+			continue
+		}
 		res[in.name] = m.BV[in.name]
 	}
 	return res
@@ -632,6 +706,9 @@ func (c *PathCtx) logQuery(extra *smt.Term, label string, r smt.Result) {
 
 // newInput declares (or returns) the named symbolic input of kind k.
 func (c *PathCtx) newInput(name string, k types.BasicKind) value {
+	if c.IntMode && k != types.Bool {
+		return c.newIntInput(name, k)
+	}
 	if i, ok := c.inputByName[name]; ok {
 		in := c.inputs[i]
 		if in.k != k {
@@ -656,9 +733,9 @@ func (c *PathCtx) concretize(v value) value {
 		if x.k != types.Bool {
 			cv := c.proposal(func() uint64 {
 				c.ensureModel()
-				return c.eval.Eval(x.t)
+				return evalU64(c.eval, x)
 			})
-			if c.branch(smt.Eq(x.t, smt.Const(x.t.W, cv))) {
+			if c.branch(eqConst(x.t, x.k, cv)) {
 				return constOfKind(cv, x.k)
 			}
 		} else {
@@ -673,19 +750,24 @@ func (c *PathCtx) concretizeIndex(v value, n int) int {
 	if !ok {
 		return int(asInt64(v))
 	}
-	w := x.t.W
 	for j := 0; j < n-1; j++ {
-		if c.branch(smt.Eq(x.t, smt.Const(w, uint64(j)))) {
+		if c.branch(eqConst(x.t, x.k, uint64(j))) {
 			return j
 		}
 	}
 	// must be n-1 (caller established range)
-	c.assume(smt.Eq(x.t, smt.Const(w, uint64(n-1))))
+	c.assume(eqConst(x.t, x.k, uint64(n-1)))
 	return n - 1
 }
 
 // inRange branches on 0 <= idx < n for a symbolic index; returns whether in range.
-func (c *PathCtx) inRange(x sv, n int) bool {
+func (c *PathCtx) inRange(x sv, n int) bool { return c.branch(rangeTerm(x, n)) }
+
+// rangeTerm: 0 <= x < n for either sort.
+func rangeTerm(x sv, n int) *smt.Term {
+	if isIntTerm(x.t) {
+		return smt.And(smt.ILe(smt.IntConst(big.NewInt(0)), x.t), smt.ILt(x.t, smt.IntConst(big.NewInt(int64(n)))))
+	}
 	w := x.t.W
 	var in *smt.Term
 	if kindSigned(x.k) {
@@ -693,7 +775,7 @@ func (c *PathCtx) inRange(x sv, n int) bool {
 	} else {
 		in = smt.ULt(x.t, smt.Const(w, uint64(n)))
 	}
-	return c.branch(in)
+	return in
 }
 
 // index resolves a possibly-symbolic index into a concrete one, raising the
